@@ -589,48 +589,45 @@ def run(ctx):
     ctx.rule("R10.17", "STRING-BUFFER-ADVANCE: where a loop scans one value after the other into the shared string buffer and advances the buffer by `snapshot - remaining size`, the snapshot is taken from the remaining size "
                        "inside the loop, in front of the scanning call of the same iteration - a snapshot taken once in front of the loop advances the buffer by the cumulative consumption, and later strings overwrite earlier ones")
     n17 = 0
-    for q17 in ("rtosc_scan_arg_val", "rtosc_scan_arg_vals"):
-        f17 = u.function(q17)
-        for lp in A.walk(u.body(f17)):
-            if lp.get("kind") not in ("ForStmt", "WhileStmt", "DoStmt"):
-                continue
-            raw = [x_ for x_ in lp.get("inner", []) if isinstance(x_, dict)]
-            body17 = raw[-1] if lp.get("kind") != "DoStmt" else raw[0]
-            if body17.get("kind") != "CompoundStmt":
-                continue
-            top = A.kids(body17)
-            calls17 = [(i_, c_) for i_, s_ in enumerate(top) for c_ in A.calls_in(s_, "rtosc_scan_arg_val") if len(A.kids(c_)) > 5]
-            if not calls17:
-                continue
-            # the remaining size: what the call is handed at the buffer-size position (`bufsize`, a pointer: *bufsize; `&bufsize`: bufsize)
-            ci, call17 = calls17[0]
-            sz = A.strip_casts(A.kids(call17)[5])
-            szid = A.ref_id(A.kids(sz)[0]) if sz.get("kind") == "UnaryOperator" and sz.get("opcode") == "&" else A.ref_id(sz)
-            if szid is None:
-                continue
 
-            def _mentions(e, vid):
-                return any(y.get("kind") == "DeclRefExpr" and (y.get("referencedDecl") or {}).get("id") == vid for y in A.walk(e))
-            # uses: a subtraction `S - <remaining size>` behind the call, directly in the loop's body
-            for ui, s_ in enumerate(top):
-                if ui < ci:
+    def _mentions17(e, vid):
+        return any(y.get("kind") == "DeclRefExpr" and (y.get("referencedDecl") or {}).get("id") == vid for y in A.walk(e))
+    for q17, fl17 in sorted(u.functions.items()):
+        for f17 in fl17:
+            if u.body(f17) is None or not (A.loc(f17)[0] or "").endswith("pretty-format.c"):
+                continue
+            # every block that holds, as one of its own statements, a scanning call that is handed the remaining buffer size
+            for blk in A.walk(u.body(f17)):
+                if blk.get("kind") != "CompoundStmt":
                     continue
-                for y in A.walk(s_):
-                    if y.get("kind") == "BinaryOperator" and y.get("opcode") == "-" and _mentions(A.kids(y)[1], szid) and A.ref_id(A.kids(y)[0]) is not None and A.ref_id(A.kids(y)[0]) != szid:
-                        snap = A.ref_id(A.kids(y)[0])
-                        n17 += 1
-                        # assignments of the snapshot from the remaining size
-                        inside = [i_ for i_, t_ in enumerate(top) for z in A.walk(t_)
-                                  if (z.get("kind") == "BinaryOperator" and z.get("opcode") == "=" and A.ref_id(A.kids(z)[0]) == snap and _mentions(A.kids(z)[1], szid)) or
-                                  (z.get("kind") == "VarDecl" and z.get("id") == snap and A.kids(z) and _mentions(A.kids(z)[-1], szid))]
-                        direct = [i_ for i_ in inside if top[i_].get("kind") in ("BinaryOperator", "DeclStmt") or A.strip_casts(top[i_]).get("kind") == "BinaryOperator"]
-                        if inside and not direct:
-                            raise AnalysisBroken("R10.17: %s: the snapshot of the remaining buffer size is taken under a condition inside the loop" % q17)
-                        ok17 = any(i_ <= ci for i_ in direct)
-                        ctx.ob("R10.17", "%s: loop@%s" % (q17, A.loc(lp)[1]), ok17, site=A.where(y), detail={"snapshot_taken_in_the_loop_before_the_call": ok17, "assignments_in_the_loop": len(inside)},
-                               key="R10.17:%s" % q17,
-                               what="%s advances the string buffer by `%s`, but the snapshot is not taken from the remaining size in front of the scanning call of the same iteration: from the second value on the buffer moves by the cumulative consumption and later strings overwrite earlier ones" % (q17, A.src(y)[:60]))
-    ctx.require(n17 >= 2, "R10.17: the loops that advance the string buffer by `snapshot - remaining size` were not found (%d)" % n17)
+                top = A.kids(blk)
+                for ci, st in enumerate(top):
+                    own = [c_ for c_ in A.calls_in(st, "rtosc_scan_arg_val") if len(A.kids(c_)) > 5 and
+                           not any(x_.get("kind") == "CompoundStmt" and any(y is c_ for y in A.walk(x_)) for x_ in A.walk(st) if x_ is not st)]
+                    for call17 in own:
+                        sz = A.strip_casts(A.kids(call17)[5])
+                        szid = A.ref_id(A.kids(sz)[0]) if sz.get("kind") == "UnaryOperator" and sz.get("opcode") == "&" else A.ref_id(sz)
+                        if szid is None:
+                            continue
+                        for ui, s_ in enumerate(top):
+                            if ui < ci:
+                                continue
+                            for y in A.walk(s_):
+                                if not (y.get("kind") == "BinaryOperator" and y.get("opcode") == "-" and _mentions17(A.kids(y)[1], szid) and A.ref_id(A.kids(y)[0]) is not None and A.ref_id(A.kids(y)[0]) != szid):
+                                    continue
+                                snap = A.ref_id(A.kids(y)[0])
+                                n17 += 1
+                                inside = [i_ for i_, t_ in enumerate(top) for z in A.walk(t_)
+                                          if (z.get("kind") == "BinaryOperator" and z.get("opcode") == "=" and A.ref_id(A.kids(z)[0]) == snap and _mentions17(A.kids(z)[1], szid)) or
+                                          (z.get("kind") == "VarDecl" and z.get("id") == snap and A.kids(z) and _mentions17(A.kids(z)[-1], szid))]
+                                direct = [i_ for i_ in inside if top[i_].get("kind") in ("BinaryOperator", "DeclStmt") or A.strip_casts(top[i_]).get("kind") == "BinaryOperator"]
+                                if inside and not direct:
+                                    raise AnalysisBroken("R10.17: %s: the snapshot of the remaining buffer size is taken under a condition next to the scanning call" % q17)
+                                ok17 = any(i_ <= ci for i_ in direct)
+                                ctx.ob("R10.17", "%s: scan@%s" % (q17, A.loc(call17)[1]), ok17, site=A.where(y), detail={"snapshot_taken_next_to_the_call": ok17, "assignments_in_the_block": len(inside)},
+                                       key="R10.17:%s" % q17,
+                                       what="%s advances the string buffer by `%s`, but the snapshot is not taken from the remaining size in the block of the scanning call, in front of it: inside a loop the buffer then moves by the cumulative consumption and later strings overwrite earlier ones" % (q17, A.src(y)[:60]))
+    ctx.require(n17 >= 1, "R10.17: no place that advances the string buffer by `snapshot - remaining size` behind a scanning call was found")
 
 
 def _inside10(root, node):
